@@ -21,7 +21,13 @@ Clause(name, holds) == IF holds THEN TRUE ELSE Report(name)
 SameMap(a, b) == Len(a) = Len(b) /\ {a[i] : i \in 1..Len(a)} = {b[i] : i \in 1..Len(b)}
 
 CheckCase ==
-    IF Ev.op = "attr_case"
+    \* maps far too large to decode here, made of values that come back exactly as written: compared by fingerprint
+    IF Ev.op = "attr_fp"
+    THEN /\ Clause("write", Ev.write = "ok")
+         /\ Ev.write = "ok" =>
+               /\ Clause("read", Ev.read = "ok")
+               /\ Ev.read = "ok" => Clause("roundtrip", Ev.fp_after = Ev.fp_before)
+    ELSE IF Ev.op = "attr_case"
     THEN /\ Clause("write", Ev.write = "ok")
          /\ Ev.write = "ok" =>
                /\ Clause("empty-is-zero-bytes", (Ev.map = <<>>) <=> (Ev.blob = <<>>))
